@@ -126,19 +126,17 @@ Variable cadd : C -> N -> list ref -> list nat -> ref -> C.
 Hypothesis Hlossy : zlossy C cget cadd.
 Variable cempty : C.
 Hypothesis Hempty : forall k a m, cget cempty k a m = None.
-Variable cav : C -> C.
-Hypothesis Hcav : cav_ok C cget cav.
 
 Notation hstate_z := (hstate_z C).
-Notation hstep_z := (hstep_z gt C cget cadd cempty cav).
-Notation hrun_z := (hrun_z gt C cget cadd cempty cav).
+Notation hstep_z := (hstep_z gt C cget cadd cempty).
+Notation hrun_z := (hrun_z gt C cget cadd cempty).
 Notation HInvZ := (HInvZ C cget).
 Notation zhop_pre := (zhop_pre C).
 Notation hframe_z := (hframe_z C).
 Notation hpost_z := (hpost_z C).
 Notation zholds := (zholds C).
 Notation hinit_z := (hinit_z C cempty).
-Notation step_ok := (hstep_z_ok gt C cget cadd Hlossy cempty Hempty cav Hcav).
+Notation step_ok := (hstep_z_ok gt C cget cadd Hlossy cempty Hempty).
 
 Lemma zholds_ext : forall st d F F', zholds st d F -> bfeq F F' -> zholds st d F'.
 Proof. intros st d F F' [r [E HF]] Hf. exists r. split; [exact E|]. intros a. rewrite HF. apply Hf. Qed.
@@ -335,13 +333,9 @@ Variable ce1 : C1.
 Variable ce2 : C2.
 Hypothesis He1 : forall k a m, cget1 ce1 k a m = None.
 Hypothesis He2 : forall k a m, cget2 ce2 k a m = None.
-Variable cav1 : C1 -> C1.
-Variable cav2 : C2 -> C2.
-Hypothesis Hv1 : cav_ok C1 cget1 cav1.
-Hypothesis Hv2 : cav_ok C2 cget2 cav2.
 
-Notation step1 := (hstep_z gt1 C1 cget1 cadd1 ce1 cav1).
-Notation step2 := (hstep_z gt2 C2 cget2 cadd2 ce2 cav2).
+Notation step1 := (hstep_z gt1 C1 cget1 cadd1 ce1).
+Notation step2 := (hstep_z gt2 C2 cget2 cadd2 ce2).
 
 (** the result is determined by the spec function and the variable order:
     same function, same node count, in any two managers *)
@@ -356,8 +350,8 @@ Theorem histz_result_determined : forall st1 st2 o1 o2 d1 d2 F st1' st2',
     count_reach (hz_s C1 st1') (E r1) = count_reach (hz_s C2 st2') (E r2).
 Proof.
   intros st1 st2 o1 o2 d1 d2 F st1' st2' I1 I2 Hl Hv S1 S2 E1 E2.
-  destruct (hstep_z_spec gt1 C1 cget1 cadd1 L1 ce1 He1 cav1 Hv1 st1 o1 d1 F I1 S1) as [sa [Ea [Ia [Fa Ha]]]].
-  destruct (hstep_z_spec gt2 C2 cget2 cadd2 L2 ce2 He2 cav2 Hv2 st2 o2 d2 F I2 S2) as [sb [Eb [Ib [Fb Hb]]]].
+  destruct (hstep_z_spec gt1 C1 cget1 cadd1 L1 ce1 He1 st1 o1 d1 F I1 S1) as [sa [Ea [Ia [Fa Ha]]]].
+  destruct (hstep_z_spec gt2 C2 cget2 cadd2 L2 ce2 He2 st2 o2 d2 F I2 S2) as [sb [Eb [Ib [Fb Hb]]]].
   rewrite E1 in Ea. inversion Ea; subst sa. rewrite E2 in Eb. inversion Eb; subst sb.
   destruct Ha as [r1 [Er1 F1]]. destruct Hb as [r2 [Er2 F2]].
   exists r1, r2. split; [exact Er1|]. split; [exact Er2|]. split; [exact F1|]. split; [exact F2|].
@@ -380,10 +374,10 @@ Qed.
     in particular the shortest one that just builds the operands in a fresh
     manager with the same variable order; the same call has the same result *)
 Theorem histz_fresh_equiv : forall n1 n2 ops1 ops2 st1 st2 o1 o2 d1 d2 F,
-  zhops_pre gt1 C1 cget1 cadd1 ce1 cav1 (hinit_z C1 ce1 n1) ops1 ->
-  hrun_z gt1 C1 cget1 cadd1 ce1 cav1 (hinit_z C1 ce1 n1) ops1 = Some st1 ->
-  zhops_pre gt2 C2 cget2 cadd2 ce2 cav2 (hinit_z C2 ce2 n2) ops2 ->
-  hrun_z gt2 C2 cget2 cadd2 ce2 cav2 (hinit_z C2 ce2 n2) ops2 = Some st2 ->
+  zhops_pre gt1 C1 cget1 cadd1 ce1 (hinit_z C1 ce1 n1) ops1 ->
+  hrun_z gt1 C1 cget1 cadd1 ce1 (hinit_z C1 ce1 n1) ops1 = Some st1 ->
+  zhops_pre gt2 C2 cget2 cadd2 ce2 (hinit_z C2 ce2 n2) ops2 ->
+  hrun_z gt2 C2 cget2 cadd2 ce2 (hinit_z C2 ce2 n2) ops2 = Some st2 ->
   s_l2v (hz_s C1 st1) = s_l2v (hz_s C2 st2) -> s_v2l (hz_s C1 st1) = s_v2l (hz_s C2 st2) ->
   hspec_z C1 st1 o1 d1 F -> hspec_z C2 st2 o2 d2 F ->
   exists st1' st2' r1 r2,
@@ -396,11 +390,11 @@ Theorem histz_fresh_equiv : forall n1 n2 ops1 ops2 st1 st2 o1 o2 d1 d2 F,
 Proof.
   intros n1 n2 ops1 ops2 st1 st2 o1 o2 d1 d2 F P1 R1 P2 R2 Hl Hv S1 S2.
   assert (I1 : HInvZ C1 cget1 st1).
-  { apply (hreach_z_inv gt1 C1 cget1 cadd1 L1 ce1 He1 cav1 Hv1 n1). exists ops1. auto. }
+  { apply (hreach_z_inv gt1 C1 cget1 cadd1 L1 ce1 He1 n1). exists ops1. auto. }
   assert (I2 : HInvZ C2 cget2 st2).
-  { apply (hreach_z_inv gt2 C2 cget2 cadd2 L2 ce2 He2 cav2 Hv2 n2). exists ops2. auto. }
-  destruct (hstep_z_spec gt1 C1 cget1 cadd1 L1 ce1 He1 cav1 Hv1 st1 o1 d1 F I1 S1) as [sa [Ea [Ia _]]].
-  destruct (hstep_z_spec gt2 C2 cget2 cadd2 L2 ce2 He2 cav2 Hv2 st2 o2 d2 F I2 S2) as [sb [Eb [Ib _]]].
+  { apply (hreach_z_inv gt2 C2 cget2 cadd2 L2 ce2 He2 n2). exists ops2. auto. }
+  destruct (hstep_z_spec gt1 C1 cget1 cadd1 L1 ce1 He1 st1 o1 d1 F I1 S1) as [sa [Ea [Ia _]]].
+  destruct (hstep_z_spec gt2 C2 cget2 cadd2 L2 ce2 He2 st2 o2 d2 F I2 S2) as [sb [Eb [Ib _]]].
   destruct (histz_result_determined st1 st2 o1 o2 d1 d2 F sa sb I1 I2 Hl Hv S1 S2 Ea Eb)
     as [r1 [r2 [A1 [A2 [A3 [A4 A5]]]]]].
   exists sa, sb, r1, r2. repeat (split; [assumption|]).
